@@ -268,7 +268,7 @@ Proof.
       rewrite parents_new. rewrite H. reflexivity.
   - destruct (aget t (tags x)); exact C.
   - destruct (locked x); exact C.
-  - destruct (remote c && hpss c && negb (revser_ok c)); [exact C|]. destruct (memb r (have x)); exact C.
+  - destruct (memb r (have x)); exact C.
   - destruct (index_of r (lefthand_opt (g x) (tip x))); exact C.
   - destruct (memb r (have x)); exact C.
   - (* GenHist *)
@@ -298,8 +298,7 @@ Proof.
   - unfold next_fresh. destruct (fresh_next (g x)); [discriminate | intros [= _ <-]; left; reflexivity].
   - destruct (aget t (tags x)); [discriminate | intros [= _ <-]; left; reflexivity].
   - destruct (locked x); discriminate.
-  - destruct (remote c && hpss c && negb (revser_ok c)); [intros [= _ <-]; left; reflexivity|].
-    destruct (memb r (have x)); [discriminate | intros [= _ <-]; left; reflexivity].
+  - destruct (memb r (have x)); [discriminate | intros [= _ <-]; left; reflexivity].
   - destruct (index_of r (lefthand_opt (g x) (tip x))); [discriminate | intros [= _ <-]; left; reflexivity].
   - destruct (memb r (have x)); [discriminate | intros [= _ <-]; left; reflexivity].
   - destruct (memb r (have x)); [|intros [= _ <-]; left; reflexivity].
@@ -310,9 +309,9 @@ Theorem locked_refuses c x o :
   locked x = true -> mutating o = true -> step c x o = (OE "LockContention"%string, x).
 Proof. intros L M. unfold step. rewrite L, M. reflexivity. Qed.
 
-Theorem novfs_refuses x o rs :
+Theorem novfs_refuses x o :
   locked x = false -> needs_vfs o = true ->
-  exists e, step (cfg_novfs rs) x o = (OE e, x).
+  exists e, step cfg_novfs x o = (OE e, x).
 Proof.
   intros L N. unfold step. rewrite L, andb_false_r, N. cbn.
   destruct o; try discriminate; eexists; reflexivity.
@@ -360,71 +359,60 @@ Qed.
 
 Definition vfs_free (ops : list op) : bool := forallb (fun o => negb (needs_vfs o)) ops.
 
-(* the places where the remote path is known to answer differently (candidate findings) *)
-Definition quirk (rs : bool) (o : op) : bool :=
+(* the places where the remote path is known to answer differently (known findings) *)
+Definition quirk (o : op) : bool :=
   match o with
   | ParentMap keys => has_null keys && has_some keys
-  | GetRev _ => negb rs
   | GenHist _ => true          (* only an ABSENT revision differs; guarded coarsely *)
   | _ => false
   end.
-Definition quirk_free (rs : bool) (ops : list op) : bool := forallb (fun o => negb (quirk rs o)) ops.
+Definition quirk_free (ops : list op) : bool := forallb (fun o => negb (quirk o)) ops.
 
-Lemma step_vfs_irrelevant rs x o : needs_vfs o = false ->
-  step (cfg_novfs rs) x o = step (cfg_vfs rs) x o.
+Lemma step_vfs_irrelevant x o : needs_vfs o = false ->
+  step cfg_novfs x o = step cfg_vfs x o.
 Proof. intros N. unfold step. rewrite N. cbn. destruct o; try discriminate; reflexivity. Qed.
 
-Theorem novfs_agrees_guarded rs : forall ops x, vfs_free ops = true ->
-  run (cfg_novfs rs) x ops = run (cfg_vfs rs) x ops.
+Theorem novfs_agrees_guarded : forall ops x, vfs_free ops = true ->
+  run cfg_novfs x ops = run cfg_vfs x ops.
 Proof.
   induction ops as [|o rest IH]; intros x H; [reflexivity|]. cbn in H. apply andb_true_iff in H as [Ho Hr].
-  apply negb_true_iff in Ho. cbn [run]. rewrite (step_vfs_irrelevant rs x o Ho). cbn zeta.
+  apply negb_true_iff in Ho. cbn [run]. rewrite (step_vfs_irrelevant x o Ho). cbn zeta.
   f_equal. apply IH. exact Hr.
 Qed.
 
-Lemma step_remote_irrelevant rs x o : quirk rs o = false ->
-  step (cfg_vfs rs) x o = step (cfg_local rs) x o.
+Lemma step_remote_irrelevant x o : quirk o = false ->
+  step cfg_vfs x o = step cfg_local x o.
 Proof.
   intros Q. unfold step. cbn [remote vfs hpss cfg_vfs cfg_local negb andb]. rewrite !andb_false_r.
   destruct o; try reflexivity; try discriminate.
-  - cbn [quirk] in Q. cbn [mutating andb]. unfold parent_map. cbn [remote cfg_vfs cfg_local andb].
-    destruct (has_null keys); cbn [andb] in *; [rewrite Q|]; reflexivity.
-  - cbn [quirk] in Q. apply negb_false_iff in Q. subst rs. reflexivity.
+  cbn [quirk] in Q. cbn [mutating andb]. unfold parent_map. cbn [remote cfg_vfs cfg_local andb].
+  destruct (has_null keys); cbn [andb] in *; [rewrite Q|]; reflexivity.
 Qed.
 
-Theorem modes_agree_guarded rs : forall ops x, quirk_free rs ops = true ->
-  run (cfg_vfs rs) x ops = run (cfg_local rs) x ops.
+Theorem modes_agree_guarded : forall ops x, quirk_free ops = true ->
+  run cfg_vfs x ops = run cfg_local x ops.
 Proof.
   induction ops as [|o rest IH]; intros x H; [reflexivity|]. cbn in H. apply andb_true_iff in H as [Ho Hr].
-  apply negb_true_iff in Ho. cbn [run]. rewrite (step_remote_irrelevant rs x o Ho). cbn zeta.
+  apply negb_true_iff in Ho. cbn [run]. rewrite (step_remote_irrelevant x o Ho). cbn zeta.
   f_equal. apply IH. exact Hr.
 Qed.
 
-(* a server without the modern verbs: the client's VFS fallbacks give the same machine, except that
-   the Repository.iter_revisions discrepancy disappears with the verb *)
-Definition old_quirk (rs : bool) (o : op) : bool :=
-  match o with GetRev _ => negb rs | _ => false end.
-Definition old_quirk_free (rs : bool) (ops : list op) : bool := forallb (fun o => negb (old_quirk rs o)) ops.
+(* a server without the modern verbs: the client's VFS fallbacks give the same machine.
+   (Before the repair 9cb1028 this needed a guard: GetRev on a rich-root knit/pack repository
+   raised KeyError through the Repository.iter_revisions verb but not through the fallback.) *)
+Lemma step_old_irrelevant x o : step cfg_old x o = step cfg_vfs x o.
+Proof. unfold step. destruct o; reflexivity. Qed.
 
-Lemma step_old_irrelevant rs x o : old_quirk rs o = false ->
-  step (cfg_old rs) x o = step (cfg_vfs rs) x o.
+Theorem oldsrv_agrees : forall ops x, run cfg_old x ops = run cfg_vfs x ops.
 Proof.
-  intros Q. unfold step. destruct o; try reflexivity; try discriminate.
-  cbn [old_quirk] in Q. apply negb_false_iff in Q. subst rs. reflexivity.
+  induction ops as [|o rest IH]; intros x; [reflexivity|].
+  cbn [run]. rewrite (step_old_irrelevant x o). cbn zeta. f_equal. apply IH.
 Qed.
 
-Theorem oldsrv_agrees_guarded rs : forall ops x, old_quirk_free rs ops = true ->
-  run (cfg_old rs) x ops = run (cfg_vfs rs) x ops.
-Proof.
-  induction ops as [|o rest IH]; intros x H; [reflexivity|]. cbn in H. apply andb_true_iff in H as [Ho Hr].
-  apply negb_true_iff in Ho. cbn [run]. rewrite (step_old_irrelevant rs x o Ho). cbn zeta.
-  f_equal. apply IH. exact Hr.
-Qed.
-
-(* the guard cannot be dropped: the specification records the three places where the two
+(* the guard cannot be dropped: the specification records the two places where the two
    code paths are observed to answer differently *)
 Theorem modes_agree_refuted :
-  exists x ops, run (cfg_vfs true) x ops <> run (cfg_local true) x ops.
+  exists x ops, run cfg_vfs x ops <> run cfg_local x ops.
 Proof.
   exists (init_state [[]; [0]] (Some 1)), [ParentMap [None; Some 1]]. vm_compute. discriminate.
 Qed.
